@@ -289,6 +289,25 @@ func timerOf(ch ssa.Value) *timerSrc {
 	if u, ok := ch.(*ssa.UnOp); ok && u.Op == token.MUL {
 		if fa, ok := u.X.(*ssa.FieldAddr); ok {
 			if f := structField(fa.X.Type(), fa.Field); f != nil && f.Name() == "C" {
+				// the timer may live in a local that a closure captured: the value assigned once
+				tv := resolveFree(stripConv(fa.X))
+				if ld, isLd := tv.(*ssa.UnOp); isLd && ld.Op == token.MUL {
+					if cell := cellOf(ld.X); cell != nil && !cellEscapes(cell) {
+						if sts := cellStores(cell); len(sts) == 1 {
+							tv = sts[0].Val
+						}
+					}
+				}
+				if c, ok := tv.(*ssa.Call); ok && tv != fa.X {
+					if funcIs(calleeObj(c), "time", "", "NewTicker") {
+						a := c.Common().Args[0]
+						return &timerSrc{Kind: "ticker", Call: c, Field: loadedField(unspill(a)), Arg: a}
+					}
+					if funcIs(calleeObj(c), "time", "", "NewTimer") {
+						a := c.Common().Args[0]
+						return &timerSrc{Kind: "after", Call: c, Field: loadedField(unspill(a)), Arg: a}
+					}
+				}
 				if c, ok := fa.X.(*ssa.Call); ok && funcIs(calleeObj(c), "time", "", "NewTicker") {
 					a := c.Common().Args[0]
 					return &timerSrc{Kind: "ticker", Call: c, Field: loadedField(unspill(a)), Arg: a}
@@ -1026,4 +1045,26 @@ func checkConfigNormalisers(c *Check, p *Program, rule string, typeName string) 
 		c.Decide(bad == "" && len(paths) > 0, rule, name+" keeps the caller's other settings", p.Pos(fn.Pos()), fmt.Sprintf("%d path(s): every field is the argument's or a numeric default", len(paths)), "the configuration normaliser changes a field it should hand through: "+bad)
 	}
 	c.Floor(rule, "normalisers of knx."+typeName, n, 1)
+}
+
+// resolveCell peels loads of local variables that are assigned exactly once
+// and never have their address taken (also when a closure captured them):
+// the value assigned.  Other values are returned unchanged.
+func resolveCell(v ssa.Value) ssa.Value {
+	for i := 0; i < 6; i++ {
+		u, ok := v.(*ssa.UnOp)
+		if !ok || u.Op != token.MUL {
+			return v
+		}
+		cell := cellOf(u.X)
+		if cell == nil || cellEscapes(cell) {
+			return v
+		}
+		sts := cellStores(cell)
+		if len(sts) != 1 {
+			return v
+		}
+		v = sts[0].Val
+	}
+	return v
 }
